@@ -27,4 +27,31 @@ def mls_even_shared_endpoint(m):
     return n >= 2 and n % 2 == 0
 
 
-PREDS = {f.__name__: f for f in [mls_even_shared_endpoint]}
+def sweep_inexact_crossing(m):
+    """geo::sweep::Intersections misses (or mis-reports) a pair, and some pair of the input segments crosses in a point
+    whose coordinates are not dyadic rationals (not representable in f64): the sweep splits segments at the rounded
+    point, after which exact incidences with the pieces are lost."""
+    from fractions import Fraction as Fr
+    c = m.get("case", {})
+    if c.get("op") != "sweep" or m.get("detail", {}).get("what") != "reported pairs differ from the exact set":
+        return False
+
+    def dyadic(f):
+        d = f.denominator
+        return d & (d - 1) == 0
+    for i, j, k in c["pairs"]:
+        if k != "point":
+            continue
+        (x1, y1), (x2, y2) = c["segs"][i - 1]
+        (x3, y3), (x4, y4) = c["segs"][j - 1]
+        d = (x1 - x2) * (y3 - y4) - (y1 - y2) * (x3 - x4)
+        if d == 0:
+            continue
+        px = Fr((x1 * y2 - y1 * x2) * (x3 - x4) - (x1 - x2) * (x3 * y4 - y3 * x4), d)
+        py = Fr((x1 * y2 - y1 * x2) * (y3 - y4) - (y1 - y2) * (x3 * y4 - y3 * x4), d)
+        if not (dyadic(px) and dyadic(py)):
+            return True
+    return False
+
+
+PREDS = {f.__name__: f for f in [mls_even_shared_endpoint, sweep_inexact_crossing]}
